@@ -34,6 +34,8 @@ def gen_can_desc(rng):
                 t = rng.choice([("u", 8), ("u", 16), ("i", 16), ("u", 32), ("i", 8), ("i", 32), ("u", 24)])
             elif style == "mux":
                 t = ("u", rng.choice([4, 8, 12])) if j else ("u", 8)
+                if j and earlier and rng.random() < 0.3:
+                    t = ("struct", rng.choice(earlier))      # a nested struct whose own leaf may be called like the multiplexer
             else:
                 r = rng.random()
                 if r < 0.1 and earlier:
@@ -53,7 +55,7 @@ def gen_can_desc(rng):
             if total + w > budget and fields:
                 continue
             total += w
-            fields.append({"name": ("mx" if style == "mux" and j == 0 else f"f{j}"), "id": j, "type": t,
+            fields.append({"name": ("mx" if (style == "mux" and j == 0) or (style == "bytes" and j == 0 and nf <= 2 and rng.random() < 0.5) else f"f{j}"), "id": j, "type": t,
                            "params": ({"unit": rng.choice(["V", "A", "rpm"])} if rng.random() < 0.3 else {})})
         if rng.random() < 0.3:
             rng.shuffle(fields)
@@ -200,6 +202,12 @@ def run(chk):
                             if s["muxids"] != want_ids:
                                 fails.append({"kind": "multiplexing-differs-from-signal-block", "schema": text, "impl": im.name, "leaf": p.name,
                                               "declared": opts, "dbc_multiplexer_ids": s["muxids"]})
+                            # the multiplexer is the leaf that a signal block of this binding names as its mux_signal, and no other
+                            # (signal blocks that apply to a leaf: one written on a struct-typed field configures no signal)
+                            want_mux = p.name in {declared.get(im.name, {}).get(q.name.split("::")[-1], {}).get("mux_signal") for q in pieces}
+                            if s["ismux"] != want_mux:
+                                fails.append({"kind": "multiplexer-marking-differs-from-signal-blocks", "schema": text, "impl": im.name, "leaf": p.name,
+                                              "dbc_is_multiplexer": s["ismux"], "named_as_mux_signal": want_mux})
                         muxed |= s is not None and (s["ismux"] or s["muxids"] is not None)
                     if muxed or any(type(p.type) in (T.FloatType, T.DoubleType) for p in pieces):
                         continue
